@@ -40,13 +40,22 @@ type hashScenario struct {
 // two strings whose 32-bit FNV-1 hashes are equal (deterministic birthday search)
 var fnvPair [2]string
 
+func fnv1(s string) uint32 {
+	h := fnv.New32()
+	h.Write([]byte(s))
+	return h.Sum32()
+}
+
 func init() {
+	// found once by the deterministic birthday search below; re-verified at every start
+	fnvPair = [2]string{"k37843", "k682900"}
+	if fnv1(fnvPair[0]) == fnv1(fnvPair[1]) {
+		return
+	}
 	seen := map[uint32]string{}
 	for i := 0; ; i++ {
 		s := "k" + strconv.Itoa(i)
-		h := fnv.New32()
-		h.Write([]byte(s))
-		v := h.Sum32()
+		v := fnv1(s)
 		if o, ok := seen[v]; ok {
 			fnvPair = [2]string{o, s}
 			return
